@@ -30,6 +30,9 @@ def get_used_qubit_indices(obj, context=None):
 class UsedQubitIndicesVisitor(Visitor):
     validate_parallel = False
 
+    # The qubits of every fundamental register; known once a circuit is visited
+    all_qubits = None
+
     def visit_default(self, obj, *args, **kwargs):
         """Anything that isn't explicitly listed here can't have any qubits."""
         return {}
@@ -77,6 +80,10 @@ class UsedQubitIndicesVisitor(Visitor):
         else:
             for param in obj.used_qubits:
                 if param is all:
+                    if self.all_qubits is None:
+                        raise JaqalError(
+                            f"Gate {obj.name} occupies all qubits: which those are is only known within a circuit"
+                        )
                     self.merge_into(indices, self.all_qubits)
                 else:
                     self.merge_into(indices, self.visit(param, context=context))
